@@ -139,9 +139,10 @@ class Harness(object):
         self.content_length = content_length
         h = self
         self.mgr_method = EventManager(None)
+        self.mgr_method2 = EventManager(None)      # a second manager on the same method: sees what the first sees
 
         class Svc(ServiceBase):
-            @rpc(Integer, _returns=Integer, _event_manager=self.mgr_method)
+            @rpc(Integer, _returns=Integer, _event_managers=[self.mgr_method, self.mgr_method2])
             def m(ctx, i):
                 return h.user(ctx, i)
 
@@ -160,6 +161,7 @@ class Harness(object):
         self.managers = [('app', self.app.event_manager, METHOD_EVENTS),
                          ('service', Svc.event_manager, METHOD_EVENTS),
                          ('method', self.mgr_method, METHOD_EVENTS),
+                         ('method2', self.mgr_method2, METHOD_EVENTS),
                          ('transport', self.wsgi.event_manager, WSGI_EVENTS),
                          ('inprot', inp.event_manager, PROT_EVENTS),
                          ('outprot', outp.event_manager, PROT_EVENTS)]
@@ -191,8 +193,8 @@ class Harness(object):
         if k == 'return':
             return 7
         if k == 'client_fault':
-            self.the_fault = Fault('Client.Custom.Sub', u'client fault \u00e9',
-                                   detail={'k': {'n': 'v', 'zero': 0, 'no': False}, 'one': 1})
+            code, message = getattr(self, 'fault_spec', None) or ('Client.Custom.Sub', u'client fault \u00e9')
+            self.the_fault = Fault(code, message, detail={'k': {'n': 'v', 'zero': 0, 'no': False}, 'one': 1})
             raise self.the_fault
         if k == 'server_fault':
             self.the_fault = Fault('Server.Custom', 'server fault')
@@ -249,13 +251,14 @@ class Harness(object):
                     if abort_after is not None and n >= abort_after:
                         o = None
                         break
-            if o is None:
-                cl = getattr(it, 'close', None)
-                if cl is not None:
-                    c.emit('iter_close')
-                    o = c.run(cl)
-                    if o.returned:
-                        o = None
+            # PEP 3333: the server calls close() on the iterable whether the iteration completed, was abandoned or
+            # failed ("try: ... finally: if hasattr(result, 'close'): result.close()")
+            cl = getattr(it, 'close', None)
+            if cl is not None:
+                c.emit('iter_close')
+                o2 = c.run(cl)
+                if o is None and not o2.returned:
+                    o = o2
             c.emit('body_done', 'return' if o is None else 'raise')
             self.body_outcome = o
         return out
